@@ -4694,6 +4694,10 @@ class ResponseFuture(object):
         self._event.clear()
         self._final_result = _NOT_SET
         self._final_exception = None
+        # each page fetch gets its own timeout: the previous page's timer was only cancelled,
+        # and the clock origin is still the first page's
+        self._timer = None
+        self._start_time = time.time()
         self._start_timer()
         self.send_request()
 
